@@ -21,7 +21,7 @@
   "C14"
  ],
  "level": "U/k",
- "tier": "wip",
+ "tier": "quick",
  "harness": "h_write_inode2",
  "replace": [
   "memcpy",
@@ -69,7 +69,7 @@
   "C14"
  ],
  "level": "U/k",
- "tier": "wip",
+ "tier": "thorough",
  "harness": "h_write_inode2",
  "replace": [
   "memcpy",
@@ -117,7 +117,7 @@
   "C14"
  ],
  "level": "U/k",
- "tier": "wip",
+ "tier": "thorough",
  "harness": "h_write_inode2",
  "replace": [
   "memcpy",
